@@ -15,6 +15,7 @@ SEMANTIC = (
     'invariant not satisfied before loop',
     'invariant not satisfied at end of loop body',
     'unreachable',
+    'requires not satisfied',      # the `requires` of an `assert ... by(...) requires ...` proof step
 )
 
 LABEL_RE = re.compile(r'//\s*\[([A-Z0-9 ,]+)\]')
